@@ -128,6 +128,16 @@ def build_group(g, wd, tier):
             rc, out, _ = sh("%s %s -c %s -o %s" % (base, pre, q(path), ob), cwd=wd, timeout=300)
         if rc != 0:
             raise GroupError("goto-cc failed on %s:\n%s" % (tu, out[-3000:]))
+        # callees defined in the SAME translation unit as the function under proof that the group replaces by a stub of
+        # their contract (explicit form): the body is removed from the goto binary of the real TU on every run, the
+        # harness supplies the stub.  A function that no longer exists is a rename: undecided.
+        for fn in g.get("stub_bodies", {}).get(tu, []):
+            rc, out, _ = sh("goto-instrument --list-goto-functions %s" % ob, cwd=wd, timeout=120)
+            if not re.search(r"^%s\b" % re.escape(fn), out, re.M) and not re.search(r"\b%s\b" % re.escape(fn), out):
+                raise GroupError("function %s not found in %s (renamed or removed?)" % (fn, tu))
+            rc, out, _ = sh("goto-instrument --remove-function-body %s %s nb_%s && mv nb_%s %s" % (fn, ob, ob, ob, ob), cwd=wd, timeout=120)
+            if rc != 0:
+                raise GroupError("remove-function-body %s failed:\n%s" % (fn, out[-2000:]))
         objs.append(ob)
     rc, out, _ = sh("goto-cc --function harness %s -o a.gb" % " ".join(objs), cwd=wd, timeout=300)
     if rc != 0:
